@@ -527,5 +527,6 @@ func ReadMinimalKey(rd io.Reader) (key.Key, error) {
 	if err != nil {
 		return nil, err
 	}
-	return key.New(key.MinecraftNamespace, str), nil
+	// a minimal key omits only the default namespace; any other namespace is spelled out
+	return parseIdentifierKey(str), nil
 }
